@@ -118,7 +118,9 @@ class Differ:
                         DiffActions.DELETE, next_path, ele, None,
                         lhs_parent=data, lhs_iteration=idx))
         else:
-            if data is not None:
+            # Only an entirely empty document has nothing to delete; a null
+            # value within a document is still a node
+            if data is not None or len(path) > 0:
                 self._diffs.append(
                     DiffEntry(DiffActions.DELETE, path, data, None)
                 )
@@ -164,7 +166,7 @@ class Differ:
                         DiffActions.ADD, next_path, None, ele,
                         rhs_parent=data, rhs_iteration=idx))
         else:
-            if data is not None:
+            if data is not None or len(path) > 0:
                 self._diffs.append(
                     DiffEntry(DiffActions.ADD, path, None, data)
                 )
